@@ -77,11 +77,21 @@ def _check(rows, hdr):
     return False                         # a row with content was dropped
   header = pre_rows[0] if pre_rows else []
   width = max(len(r) for r in rows)
-  # the importer drops a column only when it has no header and every cell is the empty string
-  kept = [j for j in range(width)
-          if any(j < len(r) and r[j] != "" for r in body) or (j < len(header) and not _blank(header[j]))]
-  if len(kept) != len(data):
-    return False
+  # a column with a non-blank cell or header must be kept; a column whose only content is whitespace may be
+  # kept or dropped (the importer keeps it unless it lies beyond the header width)
+  must = [j for j in range(width)
+          if any(j < len(r) and not _blank(r[j]) for r in body) or (j < len(header) and not _blank(header[j]))]
+  may = [j for j in range(width) if j not in must and any(j < len(r) and r[j] != "" for r in body)]
+  import itertools
+  for n_opt in range(len(may) + 1):
+    for extra in itertools.combinations(may, n_opt):
+      kept = sorted(must + list(extra))
+      if len(kept) == len(data) and _cells_match(kept, header, ids, body, data):
+        return True
+  return False
+
+
+def _cells_match(kept, header, ids, body, data):
   for dj, j in enumerate(kept):
     if j < len(header) and not _blank(header[j]) and str(ids[dj]).strip() != header[j].strip():
       return False
@@ -161,20 +171,35 @@ def classify(func, args, kw):
   sample = widths[:100]
   if any(w > max(sample) for w in widths[100:]):
     return "row_after_the_100_row_sample_is_wider_than_every_sampled_row"
-  modal = max(set(sample), key=lambda w: (sample.count(w), w))
-  wide = max(sample)
-  first_wide = next(i for i, w in enumerate(sample) if w >= wide - 1) if wide >= 3 else None
-  if first_wide and any(widths[i] < wide - 1 and any(not _blank(c) for c in rows[i]) for i in range(first_wide)):
-    return "rows_narrower_than_the_widest_minus_one_before_the_first_wide_row_are_dropped_as_preamble"
+  # input class: a row with content sits above the first row that has (nearly) as many non-blank cells
+  # as the most common multi-cell row of the sample
+  filled = [sum(1 for c in r if not _blank(c)) for r in rows[:100]]
+  multi = [n for n in filled if n > 1]
+  if multi:
+    commonest = max(set(multi), key=multi.count)
+    candidates = set(n for n in set(multi) if multi.count(n) == multi.count(commonest))
+    for modal in candidates:
+      first = next((i for i, n in enumerate(filled) if n >= modal - 1), None)
+      if first and any(0 < filled[i] < modal - 1 for i in range(first)):
+        return "rows_narrower_than_the_widest_minus_one_before_the_first_wide_row_are_dropped_as_preamble"
   return "other"
 
 
-OBLIGATIONS = [
-  {"func": "rectangular", "cond_timeout": 300, "desc": "rectangular grids <= 3x3, symbolic 1-char cells (incl. empty, space, digit, accent)"},
-  {"func": "ragged", "cond_timeout": 300, "desc": "k <= 3 rows of width w1, then two rows of widths w2, w3 with symbolic cells"},
-  {"func": "sample_boundary", "cond_timeout": 300, "desc": "98..102 rows of width w1 followed by a row of width w2 (the 100-row header sample boundary)"},
+CELLS = ["a", "1", "", " ", "-", "é"]
+OBLIGATIONS = []
+ENUM = [
+  {"func": "rectangular", "domains": {"n": [1, 2, 3], "w": [1, 2, 3], "hdr": [False, True],
+                                      "cells": [[a, b, c, d] for a in CELLS for b in CELLS for c in CELLS[:3] for d in CELLS[:2]]},
+   "shard_by": "n", "max_s": 300, "desc": "rectangular grids <= 3x3"},
+  {"func": "ragged", "domains": {"k": [0, 1, 2, 3], "w1": [1, 2, 3], "w2": [1, 2, 3], "w3": [1, 2, 3], "hdr": [False, True],
+                                 "a": CELLS, "b": CELLS, "c": CELLS}, "shard_by": "k", "max_s": 300,
+   "desc": "k <= 3 rows of width w1, then two rows of widths w2, w3"},
+  {"func": "sample_boundary", "domains": {"k": [98, 99, 100, 101, 102], "w1": [1, 2, 3], "w2": [1, 2, 3], "hdr": [False, True]},
+   "shard_by": "k", "max_s": 300, "desc": "98..102 rows of width w1 then a row of width w2 (the 100-row header sample boundary)"},
 ]
-BOUNDS = {"cells": "len <= 1 over %r (plus fixed multi-char fillers)" % ALPHA, "widths": "<= 3", "rows": "<= 5 symbolic-shape rows; up to 102 filler rows"}
+BOUNDS = {"cells": "one of %r (plus fixed multi-char fillers)" % (CELLS,), "widths": "<= 3", "rows": "<= 5 shaped rows; up to 102 filler rows"}
 FILES = ["sandbox/grist/imports/import_csv.py", "sandbox/grist/imports/import_utils.py", "sandbox/grist/parse_data.py"]
-ASSUMPTIONS = ["csv.reader stub: yields the rows as written (explicit delimiter ',' and quote '\"'); replay goes through the real csv module",
-               "numeric-looking cells may come back as numbers with the same value"]
+ASSUMPTIONS = ["every grid is written with the real csv module (delimiter ',', every cell quoted) and imported with parse_file: no stub; "
+               "CrossHair cannot follow the importer's regular expressions on symbolic strings ('nothing to repeat'), so the grid space is "
+               "enumerated by the z3 AllSAT loop instead of being symbolic",
+               "numeric-looking cells may come back as numbers with the same value; whitespace-only cells count as empty"]
